@@ -525,21 +525,27 @@ func (st *fState) describe() string {
 }
 
 func runGenericCase(c *gReplay) (string, map[string]bool, bool) {
+	msg, g := runGenericCaseW(c)
+	return msg, g.labels, g.nontri
+}
+
+// runGenericCaseW is runGenericCase returning the worlds as well.
+func runGenericCaseW(c *gReplay) (string, *gWorld) {
 	g := newGWorld(c.Cap)
 	for k := range c.Ops {
 		op := &c.Ops[k]
 		var msg string
 		if p := core.Call(func() { msg = g.apply(op) }); p != nil {
-			return fmt.Sprintf("op %d %+v panicked: %v", k, *op, p), g.labels, g.nontri
+			return fmt.Sprintf("op %d %+v panicked: %v", k, *op, p), g
 		}
 		if msg != "" {
-			return fmt.Sprintf("op %d %+v: %s", k, *op, msg), g.labels, g.nontri
+			return fmt.Sprintf("op %d %+v: %s", k, *op, msg), g
 		}
 		if msg := g.compare(); msg != "" {
-			return fmt.Sprintf("after op %d %+v: %s", k, *op, msg), g.labels, g.nontri
+			return fmt.Sprintf("after op %d %+v: %s", k, *op, msg), g
 		}
 	}
-	return "", g.labels, g.nontri
+	return "", g
 }
 
 // pickEnt draws the index of an alive entity satisfying pred, or -1.
@@ -825,6 +831,10 @@ func runGenericProp(t *testing.T, gp *genericProp) {
 }
 
 func TestC18(t *testing.T) {
+	if msg := checkTFuncs(); msg != "" {
+		core.WriteFail(&gReplay{Property: "C18", Test: "TestC18", Build: core.BuildName(), Message: msg})
+		t.Fatalf("C18 violated: %s", msg)
+	}
 	runGenericProp(t, &genericProp{ID: "C18", Test: "TestC18",
 		// an ID-based call that accepts illegal arguments is C10's business; the case ends there
 		Owns: func(msg string) bool { return !strings.Contains(msg, "HARNESS: the ID-based equivalent") },
